@@ -209,7 +209,7 @@ Inductive instr :=
 (* -- frames *)
 | KWasyn (f : fdt)              (* wasyncore.read/write/_exception: except _reraised: raise; except: obj.handle_error() *)
 | KReadwrite (f : fdt)          (* wasyncore.readwrite's ladder *)
-| KAccTry (c : chan)            (* handle_accept: `except OSError: return`; normally: go on to channel_class(...) *)
+| KAccTry (c : chan)            (* handle_accept: `except OSError: return`; normally: go on to channel_class(...) (which is inside the try when [init_guarded]) *)
 | KFlushExc (c : chan)          (* _flush_exception: except OSError / Exception: will_close = True; (False, True) *)
 | KRelO (c : chan)              (* end of `with self.outbuf_lock:` / `finally: release()` *)
 | KRelR (c : chan)              (* end of `with self.requests_lock:` *)
@@ -276,8 +276,10 @@ Record cfg := mkCfg {
   hw : nat;                  (* adj.outbuf_high_watermark *)
   sndbuf : nat;              (* channel.sendbuf_len *)
   use_poll2 : bool;          (* adj.asyncore_use_poll *)
-  wc_close : bool            (* the do_close with which service() reaches _flush_some through send_continue():
+  wc_close : bool;           (* the do_close with which service() reaches _flush_some through send_continue():
                                 True in the code as it is (finding F18); read off the source by the harness *)
+  init_guarded : bool        (* handle_accept constructs the channel INSIDE its try/except OSError:
+                                False in the code as it is (finding F17); read off the source by the harness *)
 }.
 
 Definition th0 (stack : list instr) : thread_st := mkTh stack None false false false.
@@ -516,7 +518,9 @@ Definition exec (g : cfg) (t : tid) (i : instr) (a : answer) (s : state) : resul
     match a with
     | AAcc (AccConn c) =>
       if accepted (getc s c) then Blocked
-      else Norm (setc s c (upd_accepted (getc s c))) [ISetOpts c; KAccTry c] [LAccepted c]
+      else Norm (setc s c (upd_accepted (getc s c)))
+                (if init_guarded g then [ISetOpts c; IInitGso c; IInitSbl c; IAddChan c; KAccTry c]
+                 else [ISetOpts c; KAccTry c]) [LAccepted c]
     | AAcc (AccErr e) => Norm s [] [LCaught t (XOSError e)]   (* None returned, or caught by `except OSError: return` *)
     | _ => Blocked
     end
@@ -582,8 +586,8 @@ Definition exec (g : cfg) (t : tid) (i : instr) (a : answer) (s : state) : resul
     | it :: rest =>
       let x := getc s c in
       if it_expect it && (nreq x =? 0) && negb (sentc x) then
-        (* send_continue(); it ends with request.completed = False *)
-        Norm s (send_continue c ++ [IRcvPost c (mkItem false false (it_empty it)) rest]) []
+        (* send_continue() (it clears request.expect_continue; since the fix of F5 it leaves request.completed alone) *)
+        Norm s (send_continue c ++ [IRcvPost c (mkItem false (it_completed it) (it_empty it)) rest]) []
       else Norm s [IRcvPost c it rest] []
     end
   | IRcvPost c it rest =>
@@ -794,7 +798,7 @@ Definition exec (g : cfg) (t : tid) (i : instr) (a : answer) (s : state) : resul
   | IAddTask c => let x := getc s c in Norm (setc s c (upd_req x (nreq x) (pexp x) (sentc x) true)) [] []
   (* ---------------- frames reached normally ---------------- *)
   | KWasyn _ | KReadwrite _ | KFlushExc _ | KSvcTry _ | KSvcTry2 _ | KWorkerTop _ => Norm s [] []
-  | KAccTry c => Norm s [IInitGso c; IInitSbl c; IAddChan c] []
+  | KAccTry c => if init_guarded g then Norm s [] [] else Norm s [IInitGso c; IInitSbl c; IAddChan c] []
   | KRelO c => let x := getc s c in Norm (setc s c (upd_olock x (release (olock x)) (cv x))) [] []
   | KRelR c => Norm (setc s c (upd_rlock (getc s c) None)) [] []
   end.
